@@ -483,6 +483,8 @@ func checkC15(c *core.Ctx) {
 	c.Counts["file_derived_fields"] = len(t.fields)
 	r7 := c.Rule("R15.7", "T", "a slice expression whose high bound comes from the file stays within the capacity of the array or buffer it slices")
 	capacityDiscipline(c, r7, t, rd)
+	r8 := c.Rule("R15.8", "T", "bytes returned by a stream call together with an error are indexed or sliced only where err == nil is established")
+	dataUnderErrNil(c, r8, rd)
 
 	// ---- R15.1 / R15.4
 	nMake := 0
@@ -1157,4 +1159,80 @@ func errorEdge(b *ssa.BasicBlock, k int) bool {
 		}
 	}
 	return false
+}
+
+// dataUnderErrNil (R15.8): for every call in the readers that returns a slice
+// together with an error (bufio Peek, ReadPacketData-style helpers), each
+// element access or bounded slice of the returned bytes is dominated by the
+// err == nil edge of a test of that very error value.  Testing the error only
+// against specific values (err == io.EOF) lets every other failure fall
+// through with a short or nil slice.
+func dataUnderErrNil(c *core.Ctx, r *core.Rule, rd []*ssa.Function) {
+	p := c.P
+	n := 0
+	for _, fn := range rd {
+		ord := 0
+		core.Instrs(fn, func(ins ssa.Instruction) {
+			call, ok := ins.(*ssa.Call)
+			if !ok {
+				return
+			}
+			tup, ok := call.Type().(*types.Tuple)
+			if !ok || tup.Len() < 2 || !types.Identical(tup.At(tup.Len()-1).Type(), errorType) {
+				return
+			}
+			var errV ssa.Value
+			var datas []*ssa.Extract
+			for _, ref := range *call.Referrers() {
+				ex, ok := ref.(*ssa.Extract)
+				if !ok {
+					continue
+				}
+				if ex.Index == tup.Len()-1 {
+					errV = ex
+				} else if _, ok := ex.Type().Underlying().(*types.Slice); ok {
+					datas = append(datas, ex)
+				}
+			}
+			for _, d := range datas {
+				for _, ref := range *d.Referrers() {
+					var site ssa.Instruction
+					switch x := ref.(type) {
+					case *ssa.IndexAddr:
+						if x.X == ssa.Value(d) {
+							site = x
+						}
+					case *ssa.Slice:
+						if x.X == ssa.Value(d) && (x.Low != nil || x.High != nil) {
+							site = x
+						}
+					}
+					if site == nil {
+						continue
+					}
+					n++
+					ord++
+					key := fmt.Sprintf("%s/data-under-err-nil#%d", core.FnKey(fn), ord)
+					name := "?"
+					if f := call.Call.StaticCallee(); f != nil {
+						name = f.Name()
+					} else if call.Call.Method != nil {
+						name = call.Call.Method.Name()
+					}
+					switch {
+					case errV == nil:
+						r.Violate(key, p.InstrPos(site), "the bytes returned by "+name+" are accessed here but the error returned with them is discarded", nil)
+					case core.UnderErrNil(site.Block(), errV):
+						r.OK(key, p.InstrPos(site), "access to the result of "+name+" is dominated by err == nil")
+					default:
+						r.Violate(key, p.InstrPos(site), "the bytes returned by "+name+" are accessed here although no test of the accompanying error against nil dominates the access: a failure other than the ones singled out (for instance a short read with an I/O error) reaches this point with a short or nil slice, so the reader panics or continues on garbage instead of returning the error", nil)
+					}
+				}
+			}
+		})
+	}
+	c.Counts["data_with_error_accesses"] = n
+	if n < 2 {
+		r.Missing("pcapgo/data-with-error accesses", fmt.Sprintf("only %d accesses found", n))
+	}
 }
